@@ -148,6 +148,17 @@ func tokenizeStream(src io.Reader, normalize bool, dict *dictionary, updateDict 
 						Line: line})
 				}
 				line++
+				if deferredWord {
+					// The hyphenated word completed at the end of this line, so the
+					// line break that was swallowed by the hyphen is accounted for now.
+					deferredWord = false
+					if !normalize {
+						doc.Tokens = append(doc.Tokens, indexedToken{
+							ID:   dict.getIndex(eol),
+							Line: line})
+					}
+					line++
+				}
 				continue
 			}
 
